@@ -1144,7 +1144,10 @@ func (r *aeRun) evalInstr(fr *frame, v ssa.Value) any {
 			}
 		}
 		if t, ok := in.(avTerm); ok && isIntType(x.Type()) && isIntType(x.X.Type()) {
-			return t // rune(byte) etc.: order preserved
+			if orderPreservingConv(r.ctx.p, x.X.Type(), x.Type()) {
+				return t // rune(byte), int64(int), ...: every value keeps its place
+			}
+			return avUnknown{fmt.Sprintf("conversion %s -> %s can wrap around: the order of the values is not kept", x.X.Type(), x.Type())}
 		}
 		return avUnknown{"conversion"}
 	case *ssa.TypeAssert:
@@ -1827,4 +1830,23 @@ func foldConst(name string, args []any) (any, bool) {
 		}
 	}
 	return nil, false
+}
+
+// orderPreservingConv: converting between the two integer types keeps every value (and hence
+// the order): same signedness and not narrower, or unsigned into a strictly wider signed type.
+func orderPreservingConv(p *Prog, from, to types.Type) bool {
+	fb, ok1 := from.Underlying().(*types.Basic)
+	tb, ok2 := to.Underlying().(*types.Basic)
+	if !ok1 || !ok2 {
+		return false
+	}
+	fs, ts := p.Sizes.Sizeof(from), p.Sizes.Sizeof(to)
+	fu, tu := fb.Info()&types.IsUnsigned != 0, tb.Info()&types.IsUnsigned != 0
+	switch {
+	case fu == tu:
+		return ts >= fs
+	case fu && !tu:
+		return ts > fs
+	}
+	return false // signed into unsigned: negative values wrap
 }
